@@ -227,7 +227,7 @@ impl<'a> ExprAST<'a> {
         Ok(Value::Map(ans))
     }
 
-    fn get_precidence(&self) -> (bool, (i32, i32)) {
+    fn get_precidence(&self) -> (bool, (i64, i64)) {
         match self {
             ExprAST::Binary(op, _, _) => (true, InfixOpManager::new().get_precidence(op)),
             _ => (false, (-1, -1)),
@@ -501,7 +501,7 @@ impl<'a> Parser<'a> {
         Ok(lhs)
     }
 
-    fn parse_op(&mut self, exec_prec: i32, mut lhs: ExprAST<'a>) -> Result<ExprAST<'a>> {
+    fn parse_op(&mut self, exec_prec: i64, mut lhs: ExprAST<'a>) -> Result<ExprAST<'a>> {
         let mut is_not = false;
         loop {
             if !self.tokenizer.cur_token.is_op_token() {
@@ -545,7 +545,7 @@ impl<'a> Parser<'a> {
         }
     }
 
-    fn get_token_precidence(&self) -> (i32, i32) {
+    fn get_token_precidence(&self) -> (i64, i64) {
         match &self.cur_tok() {
             Token::Operator(op, _) => InfixOpManager::new().get_precidence(op),
             _ => (-1, -1),
